@@ -256,6 +256,23 @@ def Sys.apply (s : Sys) (idx : Nat) (op : Op) (seen : Seen) (late : Option Seen)
         | some e' => pure (s.setEnd x e')
         | none => throw s!"write h={op.h}: EOF in the implementation, connection open in the model"
       | .err "wfail" =>
+        -- an empty payload is a complete frame as soon as its header is out: the peer's reader
+        -- may route it, overflow and close before the (empty) payload write, which then fails
+        let viaOwnFrame : Option Sys :=
+          if op.payload.isEmpty && !peer.st.closed && !e.st.closed then
+            match e.st.objs[op.h]? with
+            | some c =>
+              let s1 := (s.setOutWire x ((s.outWire x).push (encodeFrame ⟨c.id, []⟩))).settleOne (1 - x)
+              if (s1.getEnd (1 - x)).st.closed then some s1 else none
+            | none => none
+          else none
+        if let some s1 := viaOwnFrame then
+          let e1 := s1.getEnd x
+          match e1.fire (.write op.h op.payload (.errTrunk false)) with
+          | some e' =>
+            let w := s1.outWire x
+            return (s1.setEnd x e').setOutWire x (if w.exactUpTo.isNone then { w with exactUpTo := some (w.sent.length - 8) } else w)
+          | none => throw s!"write h={op.h}: trunk write error in the implementation, connection closed in the model"
         if !(peer.st.closed || e.st.closed) then
           throw s!"write h={op.h}: trunk write failed in the implementation, both muxes open in the model"
         match e.fire (.write op.h op.payload (.errTrunk false)) with
